@@ -136,19 +136,19 @@ Definition seg_fwd (k : nat) (s : segment) (d : decision) : list (list N) :=
 Lemma unorient_orient n f sr x :
   unorient (mkPiece n f (if xorb f sr then reverse_complement_sequence x else x)) = if sr then rcs x else x.
 Proof.
-  unfold unorient; cbn [p_rc p_data]. rewrite rc_sequence_eq.
+  unfold unorient; cbn [p_rc p_data]. rewrite (rc_sequence_eq x).
   destruct f, sr; cbn [xorb]; rewrite ?rcs_invol; reflexivity.
 Qed.
 
 Lemma segment_data_fwd s o : (if should_reverse s o then rcs (if should_reverse s o then data_rc_of (sdata s) else sdata s)
                               else (if should_reverse s o then data_rc_of (sdata s) else sdata s)) = sdata s.
-Proof. destruct (should_reverse s o); [rewrite data_rc_of_eq, rcs_invol|]; reflexivity. Qed.
+Proof. destruct (should_reverse s o); [rewrite (data_rc_of_eq (sdata s)), rcs_invol|]; reflexivity. Qed.
 
 Lemma split_inv sd pos k l r : split_segment_at_position sd pos k = Ok (l, r) ->
   let s2 := (pos - half_ceil k)%nat in
   l = firstn (s2 + k) sd /\ r = skipn s2 sd /\ (s2 + k <= length sd)%nat.
 Proof.
-  unfold split_segment_at_position. intros H s2. fold s2 in H.
+  intros H s2. unfold split_segment_at_position in H. fold s2 in H. cbv zeta in H.
   destruct (Nat.ltb_spec (length sd) s2); [discriminate|].
   destruct (Nat.ltb_spec (length sd) (s2 + k)); [discriminate|]. inversion H. auto.
 Qed.
@@ -167,7 +167,7 @@ Proof.
     apply split_inv in E. destruct E as (El & Er & Hle).
     set (s2 := (pos - half_ceil k)%nat) in *.
     assert (Hlen : length sd = length (sdata s)).
-    { unfold sd. destruct sr; [rewrite data_rc_of_eq, rcs_length|]; reflexivity. }
+    { unfold sd. destruct sr; [rewrite (data_rc_of_eq (sdata s)), rcs_length|]; reflexivity. }
     destruct sr eqn:Esr; intro H; inversion H; subst ps; clear H.
     + (* reversed: the code's left half is the forward suffix and carries part n + 1 *)
       eexists. split; [apply perm_swap|]. split; [reflexivity|].
@@ -192,7 +192,7 @@ Proof.
   apply Nat.leb_le in H1, H2.
   set (sd := if should_reverse s o then data_rc_of (sdata s) else sdata s).
   assert (Hlen : length sd = length (sdata s)).
-  { unfold sd. destruct (should_reverse s o); [rewrite data_rc_of_eq, rcs_length|]; reflexivity. }
+  { unfold sd. destruct (should_reverse s o); [rewrite (data_rc_of_eq (sdata s)), rcs_length|]; reflexivity. }
   destruct (split_ok sd pos k Hk) as (E & _). { unfold pos_ok. rewrite Hlen. auto. }
   rewrite E. destruct (should_reverse s o); eexists; reflexivity.
 Qed.
@@ -215,8 +215,9 @@ Proof.
   - exists (firstn (s2 + k) data), (skipn s2 data).
     split; [reflexivity|]. rewrite firstn_length_le, skipn_length by lia.
     split; [lia|]. split; [lia|].
-    replace s2 with (s2 + k - k)%nat at 2 4 by lia.
-    split; [apply firstn_skipn_glue; lia | apply firstn_lastn_overlap; lia].
+    pose proof (firstn_skipn_glue data (s2 + k) k ltac:(lia)) as G1.
+    pose proof (firstn_lastn_overlap data (s2 + k) k ltac:(lia)) as G2.
+    replace (s2 + k - k)%nat with s2 in G1, G2 by lia. split; assumption.
 Qed.
 
 (* head whole, the rest minus k: what the reader's loop computes from the forward pieces *)
